@@ -76,4 +76,38 @@ theorem computational_step (code : Array Byte) (s : VM) (op : Nat) (ws ws' : Lis
     simp only [Nat.not_lt_zero, if_false, Nat.sub_zero, Nat.lt_irrefl, execute, hex, hexec, hgas']
 
 
+theorem computational_underflow (code : Array Byte) (s : VM) (op : Nat)
+    (hop : op ∈ Spec.computational) (hcode : (code.getD s.pc 0).toNat = op)
+    (hlen : s.stack.length < Spec.arityOf op) : step code s = .fail .underflow := by
+  obtain ⟨info, hinfo, hview⟩ := Option.map_eq_some_iff.1 (table_view op hop)
+  simp only [Spec.view, Spec.expectedView, Spec.View.mk.injEq] at hview
+  obtain ⟨hv, hcg, hmin, hmax, hh, hj, hr, _, hex, hdyn, hmem⟩ := hview
+  unfold step
+  simp only [hcode, hinfo, hv, hmin, Bool.not_true, Bool.false_eq_true, if_false, hlen, if_true]
+
+theorem computational_out_of_gas (code : Array Byte) (s : VM) (op : Nat) (ws ws' : List W)
+    (hop : op ∈ Spec.computational) (hcode : (code.getD s.pc 0).toNat = op)
+    (hstack : s.stack = enc ws) (hlen : ws.length ≤ 1024)
+    (happ : Spec.apply op ws = some ws') (hgas : s.gas < Spec.gas op ws) :
+    step code s = .fail .oog := by
+  obtain ⟨info, hinfo, hview⟩ := Option.map_eq_some_iff.1 (table_view op hop)
+  obtain ⟨har, _⟩ := apply_arity op hop ws ws' happ
+  simp only [Spec.view, Spec.expectedView, Spec.View.mk.injEq] at hview
+  obtain ⟨hv, hcg, hmin, hmax, hh, hj, hr, _, hex, hdyn, hmem⟩ := hview
+  unfold step
+  simp only [hcode, hinfo, hv, hmin, hmax, hh, hj, hr, hmem, hstack, enc_length, Bool.not_true, Bool.false_eq_true,
+    if_false, memRequest, memorySize_zero, memResize_zero, Bool.or_self]
+  have har1 : 1 ≤ Spec.arityOf op := by unfold Spec.arityOf; split_ifs <;> omega
+  rw [if_neg (by omega), if_neg (by omega)]
+  by_cases hE : op = 0x0a
+  · subst hE
+    rcases ws with _ | ⟨x, _ | ⟨y, r⟩⟩ <;> simp only [Spec.apply, reduceCtorEq] at happ
+    simp only [Spec.gas, if_true, Spec.Gexp, Spec.Gexpbyte] at hgas
+    simp only [hcg, hdyn, if_true, Nat.not_lt_zero, if_false, Nat.sub_zero, dynamicGas, enc, List.map_cons, bitLen_bytes]
+    rw [if_pos (by omega)]
+  · have hgas' : Spec.gas op ws = Spec.staticGas op := by simp [Spec.gas, hE]
+    simp only [hcg, hE, if_false]
+    rw [if_pos (by omega)]
+
+
 end YouVerif.C15.Proofs
